@@ -54,6 +54,17 @@ def job(j, timeout=120):
     return json.loads(p.stdout)
 
 
+def job_or_crash(j, timeout=120):
+    """like job(), but a worker that dies while two parse() calls run concurrently is an OBSERVATION about the code under test (e.g. a shared expat
+    reader re-entered from a second thread), not an infrastructure error: returns {"crash": ...} instead of raising"""
+    try:
+        return job(j, timeout=timeout)
+    except RuntimeError as e:
+        return {"crash": str(e)[-300:]}
+    except subprocess.TimeoutExpired:
+        return {"crash": "worker did not finish within %ds" % timeout}
+
+
 def H(doc):
     return doc.encode("utf-8").hex()
 
@@ -117,10 +128,14 @@ def search(ctx, focus=None):
             cold_jobs.append({"a": a, "b": rng.choice([a, rng.choice(docs)]), "segments": segs})
 
     def run_cold(j):
-        return job({"mode": "schedule", "a": H(j["a"]), "b": H(j["b"]), "segments": j["segments"]})
+        return job_or_crash({"mode": "schedule", "a": H(j["a"]), "b": H(j["b"]), "segments": j["segments"]})
     for j, r in zip(cold_jobs, pool.map(run_cold, cold_jobs)):
         n += 1
         dist["cold-schedules"] += 1
+        if "crash" in r:
+            failures.append(Finding(("threads", "cold", "worker-died"), {"kind": "schedule", "warm": [], "a": j["a"], "b": j["b"], "segments": j["segments"], "thread": "?"},
+                                    "two concurrent parse() calls from a cold start (baton passed after %s traced lines): the interpreter running them died / raised outside parse(): %s" % (j["segments"], r["crash"])))
+            continue
         dist["stalled"] += 1 if r.get("stalls") else 0
         distinct.add(("c", j["a"], j["b"], tuple(j["segments"])))
         for t, d in (("A", j["a"]), ("B", j["b"])):
@@ -136,7 +151,17 @@ def search(ctx, focus=None):
         a, b = rng.choice(docs), rng.choice(docs)
         jobs = [{"a": H(a), "b": H(b), "segments": [rng.randint(1, 3000) for _ in range(rng.choice([1, 1, 2, 4]))]} for _ in range(ctx.n(10, 60))]
         warm_batches.append((a, b, jobs))
-    for (a, b, jobs), res in zip(warm_batches, pool.map(lambda x: job({"mode": "schedules", "warm": [H(SVG), H(docs[1])], "jobs": x[2]}, timeout=600), warm_batches)):
+    for (a, b, jobs), res in zip(warm_batches, pool.map(lambda x: job_or_crash({"mode": "schedules", "warm": [H(SVG), H(docs[1])], "jobs": x[2]}, timeout=600), warm_batches)):
+        if isinstance(res, dict) and "crash" in res:
+            # find one schedule of the batch that kills the worker on its own
+            res = []
+            for j in jobs:
+                one = job_or_crash({"mode": "schedules", "warm": [H(SVG), H(docs[1])], "jobs": [j]}, timeout=120)
+                if isinstance(one, dict) and "crash" in one:
+                    failures.append(Finding(("threads", "warm", "worker-died"), {"kind": "schedule", "warm": [SVG, docs[1]], "a": a, "b": b, "segments": j["segments"], "thread": "?"},
+                                            "two concurrent parse() calls on a warmed-up library (segments %s): the interpreter running them died / raised outside parse(): %s" % (j["segments"], one["crash"])))
+                    break
+                res.append(one[0])
         for j, r in zip(jobs, res):
             n += 1
             dist["warm-schedules"] += 1
@@ -284,9 +309,12 @@ def replay(w):
     base = {d: job({"mode": "sequence", "docs": [H(d)]})[0] for d in (w["a"], w["b"])}
     for _ in range(3):
         if w.get("warm"):
-            r = job({"mode": "schedules", "warm": [H(d) for d in w["warm"]], "jobs": [{"a": H(w["a"]), "b": H(w["b"]), "segments": w["segments"]}]})[0]
+            r = job_or_crash({"mode": "schedules", "warm": [H(d) for d in w["warm"]], "jobs": [{"a": H(w["a"]), "b": H(w["b"]), "segments": w["segments"]}]})
+            r = r if isinstance(r, dict) else r[0]
         else:
-            r = job({"mode": "schedule", "a": H(w["a"]), "b": H(w["b"]), "segments": w["segments"]})
+            r = job_or_crash({"mode": "schedule", "a": H(w["a"]), "b": H(w["b"]), "segments": w["segments"]})
+        if "crash" in r:
+            return (True, "the interpreter running the two concurrent calls died: " + r["crash"])
         if r["A"] != base[w["a"]] or r["B"] != base[w["b"]]:
             return (True, "a concurrent call answers differently from the same call alone")
     return (False, "both concurrent calls answer as they do alone")
